@@ -297,6 +297,7 @@ package compactindex36
 
 //@ func sortWithCompare
 //@   mode int
+//@   fnpure compare
 //@   requires compare != nil && len(a) <= 2305843009213693952
 //@   modifies a
 //@   use szRoot(len(a)) && unfold(lo(len(a), 1))
